@@ -450,7 +450,10 @@ def block_diagonalize(
             raise ValueError("Implicit mode requires matmul operator.")
 
     # Catch the solve_sylvester that uses the old signature without index.
-    if len(signature(solve_sylvester).parameters) == 1:
+    solver_parameters = signature(solve_sylvester).parameters.values()
+    if len(solver_parameters) == 1 and not any(
+        parameter.kind is parameter.VAR_POSITIONAL for parameter in solver_parameters
+    ):
         if not hermitian:
             raise NotImplementedError(
                 "Non-Hermitian problems require `solve_sylvester(Y, index)`. "
